@@ -540,6 +540,35 @@ fn s64_export_body(shape: usize) {
     kani::cover!(dl == 20);
 }
 
+/// Byte-sink constructors / exports used by `Frame::precompute_bitstream` (Verus unit
+/// frame_precompute): `with_capacity(n)` is the EMPTY sink for every n that can be allocated;
+/// `into_inner` / `as_slice` of a sink whose length is a whole number of bytes are exactly the
+/// big-endian bytes of its ideal bit string; `reserve` changes nothing observable.
+//@ unit props=C11,C08 tier=quick kind=complete timeout=600 funcs="MemSink<u8>::with_capacity; MemSink::into_inner; MemSink::as_slice; MemSink::reserve; MemSink::is_empty"
+#[kani::proof]
+#[kani::unwind(10)]
+fn s8_with_capacity_into_inner() {
+    let cap: usize = kani::any();
+    kani::assume(cap <= 4096);
+    let e = MemSink::<u8>::with_capacity(cap);
+    assert!(e.len() == 0 && e.is_empty() && e.as_slice().is_empty());
+    let (mut s, mut id) = any_sink8(2);
+    let extra: usize = kani::any();
+    kani::assume(extra <= 64);
+    s.reserve(extra);
+    check8(&s, &id, 4);
+    assert!(s.align_to_byte().is_ok());
+    id.align();
+    check8(&s, &id, 4);
+    let n = id.bytes();
+    assert!(s.as_slice().len() == n);
+    let v = s.into_inner();
+    assert!(v.len() == n && n == 2);
+    assert!(v[0] == id.byte(0) && v[1] == id.byte(1));
+    kani::cover!(cap == 0);
+    kani::cover!(cap == 4096 && extra == 64);
+}
+
 // ---- default trait methods on a minimal user sink -----------------------------------------------
 // `SpecSink` implements only the four required operations, directly on the ideal bit string.  The
 // default `write_bytes_aligned`, `write_twoc`, `write_zeros` must then deliver the spec bits.  It is
